@@ -10,4 +10,11 @@ tGrid     == {0, 1, 2, 3, 5}
 tDelays   == {NONE, 0, 1, 2, 3}
 tTimeouts == {NONE, 0, 2, 3, 5, 7}
 tConcs    == {NONE, 0, 1, 2, 3, 4}
+\* quick, directed family with FOUR attempts (interactions that need a 4th candidate, e.g. a second failure
+\* while another attempt is still running and a candidate is still queued): n = 4 only, small grids
+dGrid     == {0, 1}
+dDelays   == {NONE, 1}
+dTimeouts == {NONE, 3}
+dConcs    == {1, 2}
+Init4     == Init /\ n = N
 ====
